@@ -63,11 +63,26 @@ TECH = {
 def explanation_of(pid):
     import ast as _ast
     t = _ast.parse(open(os.path.join(VERIF, "sa", "rules", f"{pid}.py")).read())
+    out = None
     for n in t.body:
         if isinstance(n, _ast.Assign) and getattr(n.targets[0], "id", "") == "EXPLANATION":
-            return _ast.literal_eval(n.value)
-    raise SystemExit(f"{pid}: no EXPLANATION")
+            out = _ast.literal_eval(n.value)
+        if isinstance(n, _ast.AugAssign) and getattr(n.target, "id", "") == "EXPLANATION" and out is not None:
+            out += _ast.literal_eval(n.value)
+    if out is None:
+        raise SystemExit(f"{pid}: no EXPLANATION")
+    return out
 
+
+def addendum_of(pid):
+    import ast as _ast
+    t = _ast.parse(open(os.path.join(VERIF, "sa", "rules", f"{pid}.py")).read())
+    return "".join(_ast.literal_eval(n.value) for n in t.body if isinstance(n, _ast.AugAssign) and getattr(n.target, "id", "") == "EXPLANATION")
+
+
+for _pid in list(CLAIMS):
+    if os.path.exists(os.path.join(VERIF, "sa", "rules", f"{_pid}.py")):
+        CLAIMS[_pid]["text"] += addendum_of(_pid)
 
 for _pid, _t in TECH.items():
     if _pid not in CLAIMS and os.path.exists(os.path.join(VERIF, "sa", "rules", f"{_pid}.py")):
